@@ -14,7 +14,7 @@ func init() {
 		f.nat("FuseExpiration", constants.FuseExpiration)
 		f.nat("CostPerFusionUnitC", uint64(constants.CostPerFusionUnit))
 		f.nat("StakeMinAmount", constants.StakeMinAmount.String())
-		f.nat("StakeTimeUnitSec", constants.StakeTimeUnitSec)
+		f.nat("CtStakeTimeUnitSec", constants.StakeTimeUnitSec)
 		f.nat("StakeTimeMinSec", constants.StakeTimeMinSec)
 		f.nat("StakeTimeMaxSec", constants.StakeTimeMaxSec)
 		f.nat("PillarStakeAmount", constants.PillarStakeAmount.String())
@@ -39,7 +39,7 @@ func init() {
 		for i, x := range constants.LiquidityStakeWeights {
 			w[i] = uint64(x)
 		}
-		f.natList("LiquidityStakeWeights", w)
+		f.natList("CtLiquidityStakeWeights", w)
 		return f, nil
 	})
 }
